@@ -36,6 +36,19 @@ CLAIMED['C04'] = dict(
         'for loops); harness. Member-level truth is C01/C02. No axioms.',
    technique='Coq proof (loops = existsb/forallb, permutation invariance, min/max folds) + oracle-instantiated in-Coq correspondence',
    ref='5/C04')
+CLAIMED['C09'] = dict(
+   text='PARTIAL. Machine-checked proof (all vertex lists, all integers, every distance function) that vertex-shape bounds are exactly the '
+        'min/max of the vertices (within + attained + dependent on the vertex set only), that multi-shape/collection bounds are the union of '
+        'member bounds and equal the bounds of all vertices together, that the circumscribing rectangle has exactly the bounds, and that the '
+        'centroid+farthest-vertex circles (linestring, multi-*, wedge) contain every vertex, touch one and are minimal for that centre; the '
+        'GeoBox circle is proved to enclose exactly the corners not farther than the NW corner (finding D10). Tied to the code by an in-Coq '
+        'correspondence with the implementation own distances as order-preserving integers. NOT decided by proof and exercised on fixed '
+        'corpora only: the Welzl polygon circle (correctness, minimality, RNG-seed independence; finding D22), the 1% figure for curved '
+        'bounds (finding D21 for wedges across +-180), 1e-6 enclosure for circle/ellipse/ring circles.',
+   note='Trusted: Coq kernel + vm_compute; hand statement that BoundsM mirrors the min/max and max-distance expressions (checked by '
+        'correspondence); harness; IEEE doubles compared through their order-preserving bit image. No axioms.',
+   technique='Coq proof (min/max folds, farthest-point circle for an abstract metric) + in-Coq correspondence; fixed corpora for unclaimed clauses',
+   ref='5/C09')
 NOT_YET = {}
 NA = {
  'C20': 'The observable is the composition of three third-party codecs (pyshp binary I/O, GeoPandas/GEOS, fastkml XML); '
